@@ -128,8 +128,8 @@ Fixpoint p_quoted_loop (bs : bytes) : res bytes :=
       then match p_quoted_loop r with ROk l r' => ROk (b :: l) r' | ROut => ROut | RErr k a => RErr k a end
       else if tok_of_byte b =? TT_Backslash
            then match r with
-                | [] => if is_quoted_special scan_eof then ROut else RErr EParse []
-                | c :: r' => if is_quoted_special (tok_of_byte c)
+                | [] => if quoted_escape_ok scan_eof then ROut else RErr EParse []
+                | c :: r' => if quoted_escape_ok (tok_of_byte c)
                              then match p_quoted_loop r' with
                                   | ROk l r'' => ROk (c :: l) r'' | ROut => ROut | RErr k a => RErr k a end
                              else RErr EParse r
